@@ -31,9 +31,14 @@ import (
 // instead of using the MSAT array, in the same way that any other stream works.
 func (r *ComDoc) readShortSAT() error {
 	count := r.SectorSize / 4
+	// each piece of the SSAT occupies a whole sector of the file
+	if int64(r.Header.SSATSectorCount) > int64(r.sectorCount) {
+		return errors.New("SSAT sector count is larger than the file")
+	}
 	sat := make([]SecID, count*int(r.Header.SSATSectorCount))
 	position := 0
-	for sector := r.Header.SSATNextSector; sector >= 0; sector = r.SAT[sector] {
+	sector := r.Header.SSATNextSector
+	for sector >= 0 {
 		if position >= len(sat) {
 			return errors.New("ssat has more sectors than indicated")
 		}
@@ -41,6 +46,10 @@ func (r *ComDoc) readShortSAT() error {
 			return err
 		}
 		position += count
+		var err error
+		if sector, err = chainNext(r.SAT, sector); err != nil {
+			return err
+		}
 	}
 	r.SSAT = sat
 	return nil
